@@ -23,13 +23,28 @@ patch on a scratch copy and requires a new violation.  "MISSED" marks changes
 the first version of a rule did not catch; the rule was then strengthened (and
 re-checked against the unchanged tree and the benign twins).
 
+Three rounds of 20 (ids cNN, cNNb, cNNc; rounds 2 and 3 were told which sites the
+earlier rounds had used and asked for a different part of the property):
+round 1 - 12 caught by the target property's check at first pass, 1 exit 2, 2 only by
+another property's check, 5 missed; round 2 - 10 / 0 / 5 / 5; round 3 (run after the
+canonical-form rewrite of section 12) - 9 / 2 / 4 / 5.  Every miss led to a rule (often
+one shared between properties whose statements overlap); all 60 are now caught by their
+target.  The first-pass rate did not improve between rounds: independently written
+breakages keep finding clauses no rule covered yet - the honest reading is that a new
+change has roughly an even chance of hitting an existing rule, and that the 60 stored
+ones are regression tests, not a coverage measure.
+
 | id | property | change | needs, to manifest | caught by |
 |---|---|---|---|---|
 """ + '\n'.join(rows) + '\n'
 p = os.path.join(V, 'DESIGN.md')
 s = open(p).read()
+rest = ''
 if '## 11. Independently seeded' in s:
-    s = s[:s.index('## 11. Independently seeded')]
-s = s.rstrip('\n') + '\n\n' + sec
+    i = s.index('## 11. Independently seeded')
+    j = s.find('\n## 12.', i)
+    rest = s[j + 1:] if j != -1 else ''
+    s = s[:i]
+s = s.rstrip('\n') + '\n\n' + sec + ('\n' + rest if rest else '')
 open(p, 'w').write(s)
 print(len(rows), 'seeds')
